@@ -26,7 +26,7 @@ def checker(ctx) -> ptcheck.Checker:
 
 # (the last four: shapes beyond the default stream, see notes/C02.md "Seeded changes")
 GEN = {'measure_p': 0.75, 'drop_p': 0.45, 'zero_p': 0.12,
-       'nest_wrap_p': 0.3, 'int_chan_p': 0.1, 'plain_t_p': 0.1, 'reuse_p': 0.25}
+       'nest_wrap_p': 0.3, 'int_chan_p': 0.1, 'plain_t_p': 0.1, 'reuse_p': 0.25, 'single_p': 0.3, 'self_map_p': 0.15}
 
 
 def reuse_case(rng: random.Random):
@@ -179,7 +179,7 @@ def run(ctx: core.Ctx):
                 'malformed stream; scalar arithmetic around scalar arithmetic / mappings inside atomic composites; a quarter of '
                 'the random cases and a dedicated family construct their MappingPTs from caller-owned mapping dicts that '
                 'are re-used for the next construction and overwritten afterwards (the model sees the template as '
-                'written); integer channel ids; the helper RepetitionPT.with_repetition against its explicit nesting. Windows are '
+                'written); integer channel ids; 30% of the random cases are instantiated with a to_single_waveform set; the helper RepetitionPT.with_repetition against its explicit nesting. Windows are '
                 'compared as multisets of exact rationals. Non-trivial = a program is produced from a tree with more '
                 'than one node')
     ctx.assumptions = [
